@@ -17,7 +17,7 @@ def check(run):
     run.regenerate()
     run.lean_props(common.modules_for("C06"))
     from .. import glue_modes
-    glue_modes.corr(run, quick)   # Lean model of Modes (constructor, layout, dispatch, conj pairing, product terms, copies) vs the real class
+    run.attempt("corr:glue_modes.corr", glue_modes.corr, run, quick)   # Lean model of Modes (constructor, layout, dispatch, conj pairing, product terms, copies) vs the real class
     rng = run.rng
     Rs = [helpers.random_rotor(rng) for _ in range(3)] + [(1.0, 0.0, 0.0, 0.0), (0.0, 0.6, 0.8, 0.0)]
     combos = [(0, 0, 0, 0), (0, 2, 1, 3), (-1, 2, 2, 2), (2, 3, -2, 4), (1, 1, -3, 3), (-2, 5, 0, 0)] if quick else \
